@@ -92,6 +92,48 @@ var FragHTML = []string{
 var RuneAliases = []string{"\u013c", "\u013d", "\u013e", "\u0122", "\u0127", "\u0160", "\u012f", "\u0120", "\u0100", "\u043c", "\u043d", "\u043e", "\u0422", "\u0427", "\u0460",
 	"\u012d", "\u012a", "\u0123", "\u013b", "\u0140", "\u0124", "\u015c", "\u010a", "\u0109"}
 
+// Confusables: non-ASCII look-alikes of structural ASCII bytes (fullwidth and small forms, typographic
+// quotes, angle quotation marks). A normalisation step that folds them into ASCII makes plain text markup.
+var Confusables = map[byte][]string{
+	'<':  {"\uff1c", "\ufe64", "\u2039", "\u3008"},
+	'>':  {"\uff1e", "\ufe65", "\u203a", "\u3009"},
+	'=':  {"\uff1d", "\ufe66"},
+	'\'': {"\uff07", "\u2018", "\u2019"},
+	'"':  {"\uff02", "\u201c", "\u201d"},
+	'`':  {"\uff40"},
+	'/':  {"\uff0f", "\u2215"},
+	'-':  {"\uff0d", "\u2010"},
+	';':  {"\uff1b"},
+	'#':  {"\uff03"},
+}
+
+// Confuse replaces every occurrence of the structural bytes in s by their k-th look-alike.
+func Confuse(s string, k int) string {
+	var sb strings.Builder
+	for i := 0; i < len(s); i++ {
+		if alts, ok := Confusables[s[i]]; ok {
+			sb.WriteString(alts[k%len(alts)])
+		} else {
+			sb.WriteByte(s[i])
+		}
+	}
+	return sb.String()
+}
+
+// Fullwidth maps ASCII letters and digits of s to their fullwidth forms (U+FF10.., U+FF21.., U+FF41..).
+func Fullwidth(s string) string {
+	var sb strings.Builder
+	for i := 0; i < len(s); i++ {
+		c := s[i]
+		if (c >= '0' && c <= '9') || (c >= 'A' && c <= 'Z') || (c >= 'a' && c <= 'z') {
+			sb.WriteRune(rune(c) - 0x20 + 0xFF00)
+		} else {
+			sb.WriteByte(c)
+		}
+	}
+	return sb.String()
+}
+
 // BOM and other multi-byte material placed at offset 0 or across the 31-byte clip.
 const BOM = "\xef\xbb\xbf"
 
